@@ -431,6 +431,9 @@ def run(cr: CheckRun) -> None:
     # (ROM immutable, aliases canonical, plain internal RAM reads what was written) are verdicts there, the rest is drift
     from checks import ext_devices
     ext_devices.campaign(cr, cr.tier == "quick")
+    # growth: the serial adapter behind the USR / RXD / TXD cells as a state machine of its own (spec/mem/Uart.tla; drift only)
+    from checks import ext_uart
+    ext_uart.run(cr)
     cr.mark("devices (RomLoad, ImemRegs)")
     cr.cov["trusted_base"] = ["vh harness (mem.rs, romload.rs, imemregs.rs)", "Python drivers in checks/c11.py and checks/ext_devices.py", "TLC"]
     cr.assumptions += [
